@@ -36,6 +36,10 @@ BN == INSTANCE BigNat
 AddMod2(a, b, n) == LET s == BN!Pad(BN!Add(a, b), n)
                     IN SubSeq(s, Len(s) - n + 1, Len(s))
 CeilDiv(a, b) == (a + b - 1) \div b
+(* TLC: a function constructor is a lazy value whose applications are re-evaluated on every access;  *)
+(* Fix forces a byte string into a concrete tuple (SubSeq does).  Every value that is carried        *)
+(* through a recursion or into a working state passes through Fix / SubSeq / \o.                    *)
+Fix(s) == SubSeq(s, 1, Len(s))
 
 (* ------------------------------------------------------------------ 10.3.1 *)
 (* Hash_df(input_string, no_of_bits_to_return), n = number of bytes to return *)
@@ -67,22 +71,22 @@ HashReseed(H(_), outlen, seedlen, gm, st, entropy, addl) ==
                    ELSE <<1>> \o st.V \o entropy \o addl)      \* SP 800-90A 10.1.1.3
 (* ---------------------------------------------------------------- 10.1.1.4 *)
 HashGenerate(H(_), outlen, seedlen, gm, st, n, addl) ==
-  LET V1 == IF addl # <<>> THEN AddMod2(st.V, H(<<2>> \o st.V \o addl), seedlen) ELSE st.V
+  LET V1 == IF addl # <<>> THEN AddMod2(st.V, Fix(H(<<2>> \o st.V \o addl)), seedlen) ELSE st.V
       bits == IF gm THEN Take(H(V1), n)                        \* GM/T 0105: one block, n <= outlen
                     ELSE Hashgen(H, outlen, seedlen, V1, n)
-      Hh == H(<<3>> \o V1)
+      Hh == Fix(H(<<3>> \o V1))
       V2 == AddMod2(AddMod2(AddMod2(V1, Hh, seedlen), st.C, seedlen), BN!FromInt(st.reseed_counter), seedlen)
   IN <<bits, [V |-> V2, C |-> st.C, reseed_counter |-> st.reseed_counter + 1]>>
 
 (* ---------------------------------------------------------------- 10.1.2.2 *)
 (* HMAC_DRBG_Update(provided_data, K, V) = <<K, V>> *)
 HmacUpdate(KS(_), Mac(_, _), data, K, V) ==
-  LET K1 == Mac(KS(K), V \o <<0>> \o data)
+  LET K1 == Fix(Mac(KS(K), V \o <<0>> \o data))
       ks1 == KS(K1)
-      V1 == Mac(ks1, V)
+      V1 == Fix(Mac(ks1, V))
   IN IF data = <<>> THEN <<K1, V1>>
-     ELSE LET K2 == Mac(ks1, V1 \o <<1>> \o data)
-              V2 == Mac(KS(K2), V1)
+     ELSE LET K2 == Fix(Mac(ks1, V1 \o <<1>> \o data))
+              V2 == Fix(Mac(KS(K2), V1))
           IN <<K2, V2>>
 (* ------------------------------------------------------- 10.1.2.3 / 10.1.2.4 *)
 HmacInstantiate(KS(_), Mac(_, _), outlen, entropy, nonce, pers) ==
@@ -98,7 +102,7 @@ HmacGenerate(KS(_), Mac(_, _), outlen, st, n, addl) ==
       m == CeilDiv(n, outlen)
       RECURSIVE T(_, _)          \* <<temp, V>> from iteration i on
       T(i, v) == IF i = m THEN <<<<>>, v>>
-                 ELSE LET v1 == Mac(ks, v)
+                 ELSE LET v1 == Fix(Mac(ks, v))
                           r == T(i + 1, v1)
                       IN <<v1 \o r[1], r[2]>>
       t == T(0, kv0[2])
@@ -110,7 +114,7 @@ BCC(Enc(_, _), ks, blen, data) ==
   LET n == Len(data) \div blen
       RECURSIVE F(_, _)
       F(i, chain) == IF i > n THEN chain
-                     ELSE F(i + 1, Enc(ks, BXor(chain, Slice(data, (i - 1) * blen, blen))))
+                     ELSE F(i + 1, Fix(Enc(ks, Fix(BXor(chain, Slice(data, (i - 1) * blen, blen))))))
   IN F(1, Zeros(blen))
 (* ------------------------------------------------------------------ 10.3.2 *)
 (* Block_Cipher_df(input_string, no_of_bits_to_return), n bytes to return *)
@@ -127,7 +131,7 @@ BlockCipherDf(KS(_), Enc(_, _), keylen, blen, input, n) ==
       m == CeilDiv(n, blen)
       RECURSIVE O(_, _)
       O(i, X) == IF i = m THEN <<>>
-                 ELSE LET X1 == Enc(ksK, X) IN X1 \o O(i + 1, X1)
+                 ELSE LET X1 == Fix(Enc(ksK, X)) IN X1 \o O(i + 1, X1)
   IN Take(O(0, Slice(temp, keylen, blen)), n)
 (* ---------------------------------------------------------------- 10.2.1.2 *)
 (* CTR_DRBG_Update(provided_data, Key, V) = <<Key, V>>; provided_data has seedlen bytes *)
@@ -138,7 +142,7 @@ CtrUpdate(KS(_), Enc(_, _), keylen, blen, data, K, V) ==
       RECURSIVE T(_, _)
       T(i, v) == IF i = m THEN <<>>
                  ELSE LET v1 == AddMod2(v, <<1>>, blen) IN Enc(ks, v1) \o T(i + 1, v1)
-      temp == BXor(Take(T(0, V), seedlen), data)
+      temp == Fix(BXor(Take(T(0, V), seedlen), data))
   IN <<Take(temp, keylen), LastN(temp, blen)>>
 (* -------------------------------------------------- 10.2.1.3.2 / 10.2.1.4.2 *)
 CtrInstantiate(KS(_), Enc(_, _), keylen, blen, entropy, nonce, pers) ==
